@@ -424,6 +424,16 @@ def _loop_as_comprehension(loop: ast.For, acc: str, kind: str) -> t.Optional[ast
             filters.append(t.cast(ast.expr, _SubstNames(temps).visit(_not(_clone(st.test)))))
             body = body[1:]
             continue
+        if len(body) > 1 and isinstance(st, ast.If) and not st.orelse and len(st.body) == 1 and isinstance(st.body[0], ast.Assign) \
+                and len(st.body[0].targets) == 1 and isinstance(st.body[0].targets[0], ast.Name) and st.body[0].targets[0].id in temps \
+                and not _mentions(st, acc):
+            # `t = A` / `if c(t): t = B`: the temporary is `B if c(A) else A`
+            nm_ = st.body[0].targets[0].id
+            sub_ = _SubstNames(temps)
+            temps[nm_] = ast.IfExp(test=t.cast(ast.expr, sub_.visit(_clone(st.test))), body=t.cast(ast.expr, sub_.visit(_clone(st.body[0].value))),
+                                   orelse=temps[nm_])
+            body = body[1:]
+            continue
         arms = _arms_assign(st) if len(body) > 1 else None
         if arms is not None and arms[0] != acc and arms[0] not in temps and not _mentions(st, acc):
             temps[arms[0]] = t.cast(ast.expr, _SubstNames(temps).visit(arms[1]))
@@ -953,7 +963,8 @@ def spread_kwargs_dicts(fn: ast.FunctionDef) -> int:
 # ---------------------------------------------------------------------------- private one-expression helpers
 
 
-def inline_expression_helpers(fn: ast.FunctionDef, lookup: t.Callable[[ast.Call], t.Optional[ast.FunctionDef]]) -> int:
+def inline_expression_helpers(fn: ast.FunctionDef, lookup: t.Callable[[ast.Call], t.Optional[ast.FunctionDef]],
+                              lookup_method: t.Optional[t.Callable[[str], t.Optional[ast.FunctionDef]]] = None) -> int:
     """``conv = _custom_converter(ty, custom)`` with ``def _custom_converter(ty, custom): return make_converter(ty, H.make(custom))``
     ->  ``conv = make_converter(ty, H.make(custom))``.
 
@@ -965,11 +976,24 @@ def inline_expression_helpers(fn: ast.FunctionDef, lookup: t.Callable[[ast.Call]
         def visit_Call(self, node: ast.Call) -> ast.AST:
             nonlocal n
             self.generic_visit(node)
-            if not (isinstance(node.func, ast.Name) and node.func.id.startswith('_') and not node.func.id.startswith('__')):
+            recv: t.Optional[ast.expr] = None
+            if isinstance(node.func, ast.Attribute) and isinstance(node.func.value, ast.Name) and lookup_method is not None and fn.args.args \
+                    and node.func.value.id == fn.args.args[0].arg and node.func.attr.startswith('_') and not node.func.attr.startswith('__'):
+                # a private method of the same class called on the receiver (`self._is_adjacent_form(val, a, b)`)
+                g = lookup_method(node.func.attr)
+                if g is None or g is fn or g.args.vararg or g.args.kwarg or g.args.posonlyargs:
+                    return node
+                decos = [d.id for d in g.decorator_list if isinstance(d, ast.Name)]
+                if len(decos) != len(g.decorator_list) or any(d != 'staticmethod' for d in decos):
+                    return node
+                if not decos:
+                    recv = node.func.value
+            elif not (isinstance(node.func, ast.Name) and node.func.id.startswith('_') and not node.func.id.startswith('__')):
                 return node
-            g = lookup(node)
-            if g is None or g is fn or g.decorator_list or g.args.vararg or g.args.kwarg or g.args.posonlyargs:
-                return node
+            else:
+                g = lookup(node)
+                if g is None or g is fn or g.decorator_list or g.args.vararg or g.args.kwarg or g.args.posonlyargs:
+                    return node
             body = [s_ for s_ in g.body if not (isinstance(s_, ast.Expr) and isinstance(s_.value, ast.Constant))]
             if len(body) != 1 or not isinstance(body[0], ast.Return) or body[0].value is None:
                 return node
@@ -977,10 +1001,17 @@ def inline_expression_helpers(fn: ast.FunctionDef, lookup: t.Callable[[ast.Call]
                 return node
             if not all(_simple_arg(a) for a in [*node.args, *[k.value for k in node.keywords]]):
                 return node
-            names = [a.arg for a in g.args.args + g.args.kwonlyargs]
-            if len(node.args) > len(g.args.args):
+            pos = [a.arg for a in g.args.args]
+            mapping: t.Dict[str, ast.expr] = {}
+            if recv is not None:
+                if not pos:
+                    return node
+                mapping[pos[0]] = recv
+                pos = pos[1:]
+            names = pos + [a.arg for a in g.args.kwonlyargs]
+            if len(node.args) > len(pos):
                 return node
-            mapping: t.Dict[str, ast.expr] = dict(zip([a.arg for a in g.args.args], node.args))
+            mapping.update(dict(zip(pos, node.args)))
             for k in node.keywords:
                 if k.arg not in names or k.arg in mapping:
                     return node
@@ -1000,6 +1031,8 @@ def inline_expression_helpers(fn: ast.FunctionDef, lookup: t.Callable[[ast.Call]
                 if isinstance(x, ast.comprehension) and any(isinstance(y, ast.Name) and y.id in mapping for y in ast.walk(x.target)):
                     return node
                 if isinstance(x, ast.Call) and isinstance(x.func, ast.Name) and x.func.id == g.name:
+                    return node
+                if isinstance(x, ast.Call) and isinstance(x.func, ast.Attribute) and x.func.attr == g.name:
                     return node
             new = _Subst(mapping).visit(_clone(expr))
             for y in ast.walk(new):
@@ -1256,6 +1289,109 @@ def split_conditional_rebind_return(fn: ast.FunctionDef) -> int:
                     rewrite(h.body)
     rewrite(fn.body)
     return count
+
+
+def ladder_result_to_returns(fn: ast.FunctionDef) -> int:
+    """``if a: result = X`` / ``elif b: result = Y`` / ``else: ... result = Z`` followed by ``return result`` (the last two statements
+    of the function; every arm of the ladder, nested ladders included, ends in exactly one assignment to the name; the name is read
+    nowhere else)  ->  ``return X`` / ``return Y`` / ``return Z`` in the arms.  The single-exit spelling of an early-return chain."""
+    body = fn.body
+    if len(body) < 2 or not isinstance(body[-1], ast.Return) or not isinstance(body[-1].value, ast.Name) or not isinstance(body[-2], ast.If):
+        return 0
+    name = body[-1].value.id
+    loads = [x for x in ast.walk(fn) if isinstance(x, ast.Name) and x.id == name and isinstance(x.ctx, ast.Load)]
+    if len(loads) != 1:
+        return 0
+    stores = [x for x in ast.walk(fn) if isinstance(x, ast.Name) and x.id == name and isinstance(x.ctx, (ast.Store, ast.Del))]
+    tails: t.List[t.Tuple[t.List[ast.stmt], ast.Assign]] = []
+
+    def collect(block: t.List[ast.stmt]) -> bool:
+        if not block:
+            return False
+        last = block[-1]
+        if isinstance(last, ast.Assign) and len(last.targets) == 1 and isinstance(last.targets[0], ast.Name) and last.targets[0].id == name:
+            tails.append((block, last))
+            return True
+        if isinstance(last, ast.If) and last.orelse:
+            return collect(last.body) and collect(last.orelse)
+        return False
+    if not collect([body[-2]]):
+        return 0
+    bare = [st for st in body if isinstance(st, ast.AnnAssign) and st.value is None and isinstance(st.target, ast.Name) and st.target.id == name]
+    if len(stores) != len(tails) + len(bare):
+        return 0
+    for (block, asg) in tails:
+        ret = ast.copy_location(ast.Return(value=asg.value), asg)
+        block[block.index(asg)] = ret
+    for st in bare:
+        body[body.index(st)] = ast.copy_location(ast.Pass(), st)
+    body.pop()      # the final `return result` is unreachable now
+    return len(tails)
+
+
+def locals_to_attributes(fn: ast.FunctionDef) -> int:
+    """``info = E`` ... ``self.cls_info = info``  ->  ``self.cls_info = E`` at the place of the first statement, every later read of the
+    local replaced by the attribute (``__init__`` methods only; both statements in the top-level block; the local bound once and not a
+    parameter; the attribute stored once and not read in between).  State that a constructor first builds in a local and then
+    publishes is read by the rules as the attribute it becomes."""
+    if fn.name != '__init__' or not fn.args.args:
+        return 0
+    self_ = fn.args.args[0].arg
+    params = {a.arg for a in fn.args.args + fn.args.kwonlyargs + fn.args.posonlyargs} | ({fn.args.vararg.arg} if fn.args.vararg else set()) \
+        | ({fn.args.kwarg.arg} if fn.args.kwarg else set())
+    count = 0
+    for _round in range(12):
+        stores: t.Dict[str, int] = {}
+        for x in ast.walk(fn):
+            if isinstance(x, ast.Name) and isinstance(x.ctx, (ast.Store, ast.Del)):
+                stores[x.id] = stores.get(x.id, 0) + 1
+        attr_stores: t.Dict[str, int] = {}
+        for x in ast.walk(fn):
+            if isinstance(x, ast.Attribute) and isinstance(x.ctx, (ast.Store, ast.Del)) and isinstance(x.value, ast.Name) and x.value.id == self_:
+                attr_stores[x.attr] = attr_stores.get(x.attr, 0) + 1
+        done = False
+        for j, s2 in enumerate(fn.body):
+            tg = s2.targets[0] if isinstance(s2, ast.Assign) and len(s2.targets) == 1 else (s2.target if isinstance(s2, ast.AnnAssign) else None)
+            val = getattr(s2, 'value', None)
+            if not (isinstance(tg, ast.Attribute) and isinstance(tg.value, ast.Name) and tg.value.id == self_ and isinstance(val, ast.Name)):
+                continue
+            v = val.id
+            if v in params or stores.get(v, 0) != 1 or attr_stores.get(tg.attr, 0) != 1:
+                continue
+            i = next((i for i, s1 in enumerate(fn.body[:j]) if isinstance(s1, (ast.Assign, ast.AnnAssign)) and getattr(s1, 'value', None) is not None
+                      and isinstance(s1.targets[0] if isinstance(s1, ast.Assign) and len(s1.targets) == 1 else getattr(s1, 'target', None), ast.Name)
+                      and (s1.targets[0] if isinstance(s1, ast.Assign) else s1.target).id == v), None)      # type: ignore[union-attr]
+            if i is None:
+                continue
+            attr_text = f"{self_}.{tg.attr}"
+            if any(isinstance(x, ast.Attribute) and isinstance(x.ctx, ast.Load) and unparse_(x) == attr_text for st in fn.body[:j] for x in ast.walk(st)):
+                continue
+            s1 = fn.body[i]
+            new1 = ast.copy_location(ast.Assign(targets=[ast.Attribute(value=ast.Name(id=self_, ctx=ast.Load()), attr=tg.attr, ctx=ast.Store())],
+                                                value=s1.value), s1)      # type: ignore[attr-defined]
+            fn.body[i] = new1
+            fn.body[j] = ast.copy_location(ast.Pass(), s2)
+
+            class _ToAttr(ast.NodeTransformer):
+                def visit_Name(self, node: ast.Name) -> ast.AST:
+                    if node.id == v and isinstance(node.ctx, ast.Load):
+                        return ast.copy_location(ast.Attribute(value=ast.Name(id=self_, ctx=ast.Load()), attr=tg.attr, ctx=ast.Load()), node)
+                    return node
+            _ToAttr().visit(fn)
+            ast.fix_missing_locations(fn)
+            count += 1
+            done = True
+            break
+        if not done:
+            break
+    return count
+
+
+def unparse_(e: ast.AST) -> str:
+    try:
+        return ast.unparse(e)
+    except Exception:
+        return ''
 
 
 def counting_loops_to_sum(fn: ast.FunctionDef) -> int:
